@@ -65,7 +65,40 @@ def _shrink(case):
 OPFRAMES = C.Kind("op-frames", impl=H.run_case, model=H.model_line, judge=_judge, compare=H.same("frames"),
                   classify=lambda c, o: f"{c['req']['op']}:{H.outcome_of(o).split()[0]}:{len(H.frames_of(o))}frames",
                   nontrivial=_nontrivial, shrink=_shrink)
-KINDS = {"op-frames": OPFRAMES}
+import histharness as HH  # noqa: E402
+
+
+def _judge_hist(hist, out):
+    lines = []
+    for inst, outs in zip(hist["instances"], HH.split_history_output(hist, out)):
+        for op, o in zip(inst["ops"], outs):
+            lines += _judge({"did": inst["did"], "key": inst["key"], "now": op["now"], "tz": hist.get("tz", "UTC"), "req": op["req"],
+                             "replies": op["replies"]}, o)
+    return lines
+
+
+def gen_reconnecting(rng):
+    """ONE api object used for a while: operations in quick succession and after long pauses, the object disconnected and connected
+    again in between (at once, and much later), failed exchanges in between - every frame it ever writes is well formed"""
+    api = rng.choice(["type1", "type2"])
+    pool = [o for o in G.ALL_OPS if (o in H.TYPE2_OPS) == (api == "type2") and o != "createsched"]
+    did, key = G.gen_ids(rng)
+    now, ops = float(rng.randrange(1_600_000_000, 1_900_000_000)), []
+    for k in range(rng.randrange(2, 9)):
+        c = G.gen_case(rng, rng.choice(pool))
+        now += rng.choice([0, 1, 2, 9, 11, 3600])
+        if rng.random() < 0.25:
+            c["replies"][0] = "-" if rng.random() < 0.5 else c["replies"][0][:16]     # the login of this exchange fails
+        ops.append({"now": now, "req": c["req"], "replies": c["replies"], "reconnect": bool(k and rng.random() < 0.5)})
+    return {"tz": "UTC", "instances": [{"did": did, "key": key, "api": api, "ops": ops}], "schedule": []}
+
+
+LONGUSE = C.Kind("one-api-object-used-for-a-while", impl=HH.run_history, model=HH.model_lines, assemble=HH.assemble, judge=_judge_hist,
+                 compare=H.same("frames"), classify=lambda h, o: f"{h['instances'][0]['api']}:{len(h['instances'][0]['ops'])}ops",
+                 nontrivial=lambda h, o: o[:160],
+                 shrink=lambda h: [dict(h, instances=[dict(h["instances"][0], ops=h["instances"][0]["ops"][:j] + h["instances"][0]["ops"][j + 1:])])
+                                   for j in range(len(h["instances"][0]["ops"])) if len(h["instances"][0]["ops"]) > 1])
+KINDS = {"op-frames": OPFRAMES, "one-api-object-used-for-a-while": LONGUSE}
 
 
 def _targeted(rng):
@@ -89,6 +122,8 @@ def _targeted(rng):
 def streams(ctx):
     rng = ctx.rng
     ctx.run_cases(OPFRAMES, "targeted-lengths-and-names", _targeted(rng), exhaustive=False, sample_every=37)
+    ctx.run_cases(LONGUSE, "one-api-object-reconnected-and-used-again", [gen_reconnecting(rng) for _ in range(ctx.n(150, 3000))], exhaustive=False,
+                  sample_every=70)
     per = ctx.n(220, 4500)
     for op in G.ALL_OPS:
         ctx.run_cases(OPFRAMES, f"random-{op}", [G.gen_case(rng, op) for _ in range(per if op != "ctlbreeze" else per * 2)],
